@@ -92,12 +92,14 @@ class VCSAPI:
     def __call__(self, cmd_name: str, env: typ.Optional[Env] = None, **kwargs: str) -> str:
         """Invoke subcommand and return output."""
         cmd_tmpl = self.subcommands[cmd_name]
-        cmd_str  = cmd_tmpl.format(**kwargs)
+        # tokenize the template first, so that substituted values
+        # (messages, tags, paths) can never add or alter arguments
+        cmd_parts = [part.format(**kwargs) for part in shlex.split(cmd_tmpl)]
+        cmd_str   = " ".join(cmd_parts)
         if cmd_name in ("commit", "tag", "push_tag"):
             logger.info(cmd_str)
         else:
             logger.debug(cmd_str)
-        cmd_parts = shlex.split(cmd_str)
         output_data: bytes = sp.check_output(cmd_parts, env=env, stderr=sp.PIPE)
 
         return output_data.decode("utf-8")
